@@ -146,7 +146,9 @@ def run(ctx):
     ctx.assumptions = [
         "token ids do not wrap (2^64 allocations are not reachable); the model has no wrap-around either",
         "Cabinet::foreach(): the callback only calls at/update/free (the header allows removal only); alloc()/clear() inside the walk are not exercised",
-        "ObjectPool: objects are given back through the pool before the pool is destroyed (documented requirement); malloc never fails",
+        "ObjectPool: objects are given back through the pool before the pool is destroyed (documented requirement); malloc never fails; "
+        "constructors/destructors re-enter alloc()/free() of the same pool at most two levels deep; a constructor that throws leaves no object "
+        "(the block it was given is lost by the current code - a leak, not reported)",
         "Fd: real descriptors (no close function) are observed by probing fcntl(F_GETFD) after every call; a closed number is re-occupied at once "
         "by a placeholder so that a second close is seen; two closes of one number within a single call are seen as one",
         "single-threaded use (all four classes are documented as not thread-safe)",
